@@ -20,7 +20,7 @@ class Spec(c01.Spec):
     ]
     rule = c01.Spec.rule.replace('acyclic hard/soft graph',
                                  'hard/soft graph (acyclic or cyclic)') + \
-        ('; initial environments hold DONE/FAILED/SKIPPED/WAITING/PENDING '
+        ('; initial environments hold DONE/FAILED/SKIPPED '
          'entries for random subsets of tasks; termination, absence of '
          'blocked threads after return and emptiness of the work queue are '
          'decided by the simulator')
